@@ -240,6 +240,19 @@ func flattenOne(in *inliner, p *packages.Package, c *flatCand) (map[string][]tex
 				if !ok || info.Uses[k] != types.Object(c.field) {
 					return true
 				}
+				if src, ok := ast.Unparen(x.Value).(*ast.SelectorExpr); ok && info.Uses[src.Sel] == types.Object(c.field) && simpleChain(src.X) {
+					// F: y.F  ->  g1: y.g1, g2: y.g2 (the whole group copied from another object)
+					handled[src] = true
+					sx := in.nodeText(src.X)
+					var parts []string
+					for i := 0; i < c.innerSt.NumFields(); i++ {
+						parts = append(parts, c.innerSt.Field(i).Name()+": "+sx+"."+c.innerSt.Field(i).Name())
+					}
+					_, a := in.rawOff(x.Pos())
+					_, b := in.rawOff(x.End())
+					add(fname, textEdit{a, b, strings.Join(parts, ", ")})
+					return false
+				}
 				cl, ok := ast.Unparen(x.Value).(*ast.CompositeLit)
 				if !ok || len(cl.Elts) == 0 {
 					why = "the group is initialised by something other than a non-empty keyed literal (" + in.w.Pos(x.Pos()) + ")"
